@@ -343,6 +343,10 @@ class ListenSocket(object):
         if self.listening:
             self.net.listeners.pop(self.addr, None)
             self.listening = False
+        # connections never accepted are reset by the kernel when the listener goes away
+        for sock in self.backlog:
+            sock.close()
+        self.backlog = []
 
 
 class _ConnectedProxy(ListenSocket):
